@@ -67,6 +67,9 @@ def r1_compare(chk, fx):
         for ev in p.trace:
             if ev[0] == "call" and any(isinstance(a, tuple) and a[0] == "closure" and a[1] == n for a in ev[2]):
                 recvs.append((ev[1], ev[2][0]))
+            # loop form: the decision is the body of a `for` over the names (the lookups are in compare itself)
+            if n == cname and ev[0] == "next" and ev[2] == "Some" and any(x[0] == "term" and T.short(x[1], 2) == "HashMap::keys" for x in A.walk_value(ev[1])):
+                recvs.append(("Iterator::map", ev[1]))
     ok = bool(recvs)
     detail = None
     for fnm, r in recvs:
@@ -109,7 +112,8 @@ def check_wiring(chk, n, arm, i_case):
                      loc_of(arm.get("sp")), holds=ok, detail=A.vstr(d) if d is not None else "no %s field" % fam,
                      key="C01/R1 compare wiring %s installed=%s" % (fam, i_case))
     nm = fs.get("name")
-    ok = nm is not None and A.vstr(nm) in ("«param:name»", "«var:name»") or (nm is not None and nm[0] == "sym" and nm[1].split(":")[-1] == "name")
+    # .. i.e. the key both maps were looked up with (whatever the variable is called, closure parameter or loop variable)
+    ok = nm is not None and (A.vstr(nm) in (arm.get("keys") or ()) or A.vstr(nm) in ("«param:name»", "«var:name»"))
     chk.instance("C01/R1", "Update.name is the policy's own name (%s)" % (A.vstr(nm) if nm is not None else None), n, loc_of(arm.get("sp")), holds=bool(ok),
                  key="C01/R1 compare update-name installed=%s" % i_case)
     fe = fs.get("filter_expr")
@@ -516,7 +520,7 @@ def r5_installed_statement(chk, fx):
         ex = [e for e in p.trace if e[0] == "loop-exit"]
         if p.end not in ("return", "fallthrough") or not ex or (ex[-1][2] or {}).get("l", 0) != outer:
             continue
-        if not all(p.assume.get("«loop:%s»" % f) is True for f in flags):
+        if not all(p.assumed_bool("«loop:%s»" % f) is True for f in flags):
             continue
         if not (A.is_res(p.ret) and p.ret[2] == "Ok"):
             continue
